@@ -8,7 +8,7 @@
 //! trusted: R15: decode_next_hop: the statements up to the HMAC test verbatim as a function (key derivation external_body over uninterpreted rho_of/mu_of; HmacEngine is a stub that records key and the concatenation of its inputs in ghost fields; Hmac::from_engine is the uninterpreted hmac_sha256 of those; fixed_time_eq is equality); decrypting and parsing the payload after the gate are dropped and not claimed
 //! trusted: R15 (deep slices): the TLV type literal under which each of the three sender-side payload writers puts the keysend preimage and from which each of the two receiver-side readers takes it (five literals extracted from the TLV macro invocations of ln/msgs.rs); the TLV macros themselves are not verified
 //! trusted: R15 (deep slice): create_payment_onion_internal: the construction of the stripped RecipientOnionFields for a trampoline entry point and the condition of the refusal "Cannot pass payment_metadata to a blinded recipient" (first test under `if let Some(blinded_tail) = &path.blinded_tail`), verbatim as a function of the caller's fields; struct RecipientOnionFields is extracted (PaymentSecret is a 32-byte skeleton); building the trampoline and outer onions after the gate is dropped and not claimed here
-//! trusted: R15 (deep slice): create_payment_onion_internal from the build_onion_payloads call to the end, verbatim; build_onion_payloads / construct_onion_keys / construct_onion_packet are external_body over uninterpreted payloads, keys and packet (build_onion_payloads' amounts are proved above for build_onion_payloads_callback; the packet construction itself is not verified); R8: `.map_err(|_| APIError::InvalidRoute { err: <string> })` loses its message
+//! trusted: R15 (deep slice): create_payment_onion_internal from the build_onion_payloads call to the end, verbatim; build_onion_payloads / construct_onion_keys / construct_onion_packet are external_body over uninterpreted payloads, keys and packet (build_onion_payloads' amounts are proved above for build_onion_payloads_callback; the packet construction itself is not verified); R8: `.map_err(|_| APIError::InvalidRoute { err: <string> })` loses its message; the call of build_trampoline_onion_payloads (arguments verbatim; the deferred `let a; let b; (a, b) = f()?` is written `let (a, b) = f()?`) over an uninterpreted payload builder
 //! assume: every hop's fee_msat <= 21e17 (the total supply in msat): without it `cur_value_msat += hop.fee_msat()` can overflow u64 before the limit test (observation O5 in DESIGN)
 //! assume: the contract is for a path without blinded or trampoline tail (blinded_tail is None) whose final hop carries a non-zero amount; the other arms are kept in the verified text but unreachable under this precondition and not claimed
 //! trusted: assume_specification for core::cmp::max / core::cmp::min (std definitions): present in every unit so that a change that introduces them is verified instead of being rejected by the tool
@@ -379,6 +379,28 @@ pub uninterp spec fn packet_of(payloads: int, keys: int, seed: [u8; 32], hash: P
 #[verifier::external_body] pub fn construct_onion_keys(secp_ctx: &&Secp256k1, path: &&Path, session_priv: &SecretKey) -> (r: OnionKeys) ensures r.id == keys_of(**path, *session_priv) { unimplemented!() }
 #[verifier::external_body] pub fn construct_onion_packet(payloads: Payloads, onion_keys: OnionKeys, prng_seed: [u8; 32], associated_data: &PaymentHash) -> (r: Result<OnionPacket, ()>)
     ensures r matches Ok(p) ==> p.id == packet_of(payloads.id, onion_keys.id, prng_seed, *associated_data) { unimplemented!() }
+pub struct BlindedTail { pub id: u64 }
+pub struct TrampolinePayloads { pub id: int }
+pub uninterp spec fn trampoline_payloads_of(tail: BlindedTail, fields: RecipientOnionFields, height: u32, keysend: Option<PaymentPreimage>) -> int;
+pub uninterp spec fn outer_total_of(tail: BlindedTail, fields: RecipientOnionFields) -> u64;
+#[verifier::external_body] pub fn build_trampoline_onion_payloads(blinded_tail: &&BlindedTail, recipient_onion: &RecipientOnionFields, starting_htlc_offset: u32, keysend_preimage: &Option<PaymentPreimage>) -> (r: Result<(TrampolinePayloads, u64), APIError>)
+    ensures r matches Ok(t) ==> t.0.id == trampoline_payloads_of(**blinded_tail, *recipient_onion, starting_htlc_offset, *keysend_preimage) && t.1 == outer_total_of(**blinded_tail, *recipient_onion) { unimplemented!() }
+pub struct OuterFields { pub total_mpp_amount_msat: u64 }
+//@extract lightning/src/ln/onion_utils.rs :: fn create_payment_onion_internal
+//@slice R15
+    let trampoline_payloads; let outer_total_msat; (trampoline_payloads, outer_total_msat) = build_trampoline_onion_payloads($args:any)?; trampoline_outer_onion.total_mpp_amount_msat = outer_total_msat;
+//@with
+    fn payloads_for_the_trampoline_hops(blinded_tail: &BlindedTail, recipient_onion: &RecipientOnionFields, cur_block_height: u32, keysend_preimage: &Option<PaymentPreimage>, trampoline_outer_onion: &mut OuterFields) -> Result<TrampolinePayloads, APIError> {
+        let (trampoline_payloads, outer_total_msat) = build_trampoline_onion_payloads($args)?; trampoline_outer_onion.total_mpp_amount_msat = outer_total_msat; Ok(trampoline_payloads) }
+//@ret r
+//@ensures P C14 the-trampoline-onion-is-built-from-the-callers-recipient-fields-height-and-keysend-preimage-and-the-entry-point-is-told-the-total-it-computed
+    r matches Ok(p) ==> p.id == trampoline_payloads_of(*blinded_tail, *recipient_onion, cur_block_height, *keysend_preimage)
+        && final(trampoline_outer_onion).total_mpp_amount_msat == outer_total_of(*blinded_tail, *recipient_onion),
+//@mutant keysend_preimage_left_out_of_the_trampoline_onion
+    cur_block_height, keysend_preimage,
+//@with
+    cur_block_height, &None,
+//@end
 //@extract lightning/src/ln/onion_utils.rs :: fn create_payment_onion_internal
 //@slice R15
     let (onion_payloads, htlc_msat, htlc_cltv) = build_onion_payloads($args:any)?; $rest:any Ok(($r:seq)) }
